@@ -809,4 +809,410 @@ Proof.
   destruct (kept_rate s s' c c' Hw Hok Hlo Hk) as (H1 & _ & H3). auto.
 Qed.
 
+(* ---------- work received ---------- *)
+Lemma served_in_true id s c : In c (inds s) -> c_ws c = true -> cid c = id -> served_in id s = true.
+Proof.
+  intros Hc Hw E. unfold served_in. apply existsb_exists. exists c. split; [exact Hc|].
+  rewrite E, Z.eqb_refl, Hw. reflexivity.
+Qed.
+Lemma served_in_false id s : (forall c, In c (inds s) -> cid c = id -> c_ws c = false) -> served_in id s = false.
+Proof.
+  intros H. unfold served_in. destruct (existsb _ (inds s)) eqn:E; [|reflexivity].
+  apply existsb_exists in E as (c & Hc & E). apply andb_true_iff in E as [E1 E2]. apply Z.eqb_eq in E1.
+  rewrite (H c Hc E1) in E2. discriminate.
+Qed.
+
+Record Ghost (s : st) (g : Z -> Q) : Prop := mkGhost {
+  g_served : forall c, In c (inds s) -> c_ws c = true -> g (cid c) + work_left s c == c_req c;
+  g_waiting : forall c, In c (inds s) -> c_ws c = false -> g (cid c) == 0;
+  g_pend : forall a, In a (pend s) -> g (a_id a) == 0
+}.
+
+Lemma not_served_id arrs s sv wt id :
+  Inv arrs s sv wt ->
+  ((exists c, In c (inds s) /\ c_ws c = false /\ cid c = id) \/ (exists a, In a (pend s) /\ a_id a = id)) ->
+  served_in id s = false.
+Proof.
+  intros I H. pose proof (i_ids _ _ _ _ I) as Hn. rewrite <- (i_split _ _ _ _ I) in Hn.
+  pose proof (nodup_app_l _ _ Hn) as Hn1.
+  apply served_in_false. intros c Hc E. destruct H as [(c2 & H2 & Hw2 & E2)|(a & Ha & Ea)].
+  - assert (c2 = c) as -> by (eapply id_unique; eauto; congruence). exact Hw2.
+  - exfalso. eapply (nodup_app_disj _ _ id Hn); [rewrite <- E; apply in_map; exact Hc|rewrite <- Ea; apply in_map; exact Ha].
+Qed.
+
+Lemma step_ghost arrs s sv wt s' g :
+  Inv arrs s sv wt -> Ghost s g -> step R K s = Some s' ->
+  Ghost s' (fun id => g id + (if served_in id s then rate (occupancy s) * (now s' - now s) else 0)).
+Proof.
+  intros I G Hs. destruct (step_origin _ _ _ _ _ I Hs) as (Ho & Hnow & _ & Hincl).
+  destruct (inv_occ _ _ _ _ I) as (Eo & El). destruct G as [G1 G0 Gp].
+  assert (Hsv : forall c, In c (inds s) -> c_ws c = true -> served_ok (now s) (locc s) c /\ (0 < locc s)%nat).
+  { intros c Hc Hw. pose proof (i_split _ _ _ _ I) as E. rewrite E in Hc. apply in_app_or in Hc as [Hc|Hc].
+    - pose proof (i_num _ _ _ _ I) as Hn. rewrite Forall_forall in Hn. split; [auto|].
+      rewrite El. destruct sv; [contradiction|cbn; lia].
+    - pose proof (i_wt _ _ _ _ I) as Hwt. unfold none_ws in Hwt. rewrite Forall_forall in Hwt. rewrite (Hwt c Hc) in Hw. discriminate. }
+  assert (Hzero : forall id,
+    ((exists c, In c (inds s) /\ c_ws c = false /\ cid c = id) \/ (exists a, In a (pend s) /\ a_id a = id)) -> g id == 0).
+  { intros id [(c & Hc & Hw & <-)|(a & Ha & <-)]; auto. }
+  constructor.
+  - intros c' Hc' Hw'. destruct (Ho c' Hc') as [c Hc Hw Hid Hk| _ Hd Htl Hsrc|Hw2 _]; [| |congruence].
+    + rewrite (served_in_true (cid c') s c Hc Hw (eq_sym Hid)).
+      destruct (Hsv c Hc Hw) as (Hok & Hlo).
+      destruct (kept_rate s s' c c' Hw Hok Hlo Hk) as (_ & Hr & Hwl).
+      rewrite Hwl, Hr, Hid, Eo. specialize (G1 c Hc Hw). lra.
+    + rewrite (not_served_id _ _ _ _ _ I Hsrc), (Hzero _ Hsrc).
+      unfold work_left, wl_at. rewrite Hd, Htl. ring.
+  - intros c' Hc' Hw'. destruct (Ho c' Hc') as [c Hc Hw Hid Hk| Hw2 _ _ _|_ Hsrc]; [|congruence|].
+    + destruct (Hsv c Hc Hw) as (Hok & Hlo).
+      destruct (kept_rate s s' c c' Hw Hok Hlo Hk) as (Hw2 & _). congruence.
+    + assert (Hsrc' : (exists c, In c (inds s) /\ c_ws c = false /\ cid c = cid c') \/ (exists a, In a (pend s) /\ a_id a = cid c')).
+      { destruct Hsrc as [H|H]; [left; exists c'; auto|right; exact H]. }
+      rewrite (not_served_id _ _ _ _ _ I Hsrc'), (Hzero _ Hsrc'). ring.
+  - intros a Ha. apply Hincl in Ha.
+    assert (Hsrc' : (exists c, In c (inds s) /\ c_ws c = false /\ cid c = a_id a) \/ (exists a0, In a0 (pend s) /\ a_id a0 = a_id a)).
+    { right. exists a. auto. }
+    rewrite (not_served_id _ _ _ _ _ I Hsrc'), (Hzero _ Hsrc'). ring.
+Qed.
+
+Lemma reach_ghost arrs s g : wf_arrs arrs -> reach arrs s g -> Ghost s g.
+Proof.
+  intros Hwf. induction 1 as [|s g s' Hr IH Hs].
+  - constructor; cbn; intros; try contradiction; reflexivity.
+  - destruct (reach_inv _ _ _ Hwf Hr) as (sv & wt & I). eapply step_ghost; eauto.
+Qed.
+
+Lemma cons_neq_self {X} (x : X) l : l <> x :: l.
+Proof. intros H. apply (f_equal (@length X)) in H. cbn in H. lia. Qed.
+
+(* ps_work: a customer leaves exactly when its remaining work is 0, and then the work it has
+   received (sum over the elapsed intervals of dt * rate(occupancy)) equals its requirement *)
+Theorem ps_work arrs s g s' d :
+  wf_arrs arrs -> reach arrs s g -> step R K s = Some s' -> deps s' = d :: deps s ->
+  (exists c, In c (inds s) /\ c_ws c = true /\ cid c = d_id d /\ c_req c = d_req d /\ c_arr c = d_arr d /\
+             c_start c = d_start d /\ c_end c = d_exit d /\ wl_at (now s') (locc s) c == 0) /\
+  d_exit d = now s' /\
+  g (d_id d) + rate (occupancy s) * (now s' - now s) == d_req d /\
+  In (d_id d, d_arr d, d_req d) arrs.
+Proof.
+  intros Hwf Hr Hs Hd. destruct (reach_inv _ _ _ Hwf Hr) as (sv & wt & I).
+  pose proof (reach_ghost _ _ _ Hwf Hr) as G.
+  destruct (step_cases _ _ _ _ _ I Hs) as [(a & r & Hp & -> & Hle)|(c & Hc & -> & Hnow & Hmin)].
+  - destruct (accept_fields s a r) as (_ & _ & E). rewrite E in Hd. exfalso. eapply cons_neq_self; eauto.
+  - destruct (depart_fields s c) as (E1 & _ & E3). rewrite E3 in Hd. injection Hd as <-. cbn [d_id d_arr d_req d_start d_exit].
+    rewrite E1.
+    assert (Hci : In c (inds s)) by (rewrite (i_split _ _ _ _ I); apply in_or_app; left; exact Hc).
+    assert (Hw : c_ws c = true).
+    { pose proof (i_sv _ _ _ _ I) as H. unfold all_ws in H. rewrite Forall_forall in H. auto. }
+    assert (Hok : served_ok (now s) (locc s) c).
+    { pose proof (i_num _ _ _ _ I) as H. rewrite Forall_forall in H. auto. }
+    assert (Hz : wl_at (c_end c) (locc s) c == 0) by (apply (wl_zero_iff (now s)); [exact Hw|exact Hok|reflexivity]).
+    destruct (inv_occ _ _ _ _ I) as (Eo & _).
+    split; [exists c; repeat split; auto|]. split; [reflexivity|]. split.
+    + pose proof (g_served _ _ G c Hci Hw) as H1. rewrite Eo. unfold work_left, wl_at in *. lra.
+    + destruct (i_src _ _ _ _ I) as (H & _). rewrite Forall_forall in H. apply H. apply in_or_app. left. exact Hc.
+Qed.
+
+(* ps_no_early: while a customer is in service its remaining work is >= 0; it is 0 exactly when its
+   projected end date is the present instant; what it has received so far plus what remains is its requirement *)
+Theorem ps_no_early arrs s g c :
+  wf_arrs arrs -> reach arrs s g -> In c (inds s) -> c_ws c = true ->
+  0 <= work_left s c /\ (work_left s c == 0 <-> c_end c == now s) /\
+  g (cid c) + work_left s c == c_req c /\ g (cid c) <= c_req c.
+Proof.
+  intros Hwf Hr Hc Hw. destruct (reach_inv _ _ _ Hwf Hr) as (sv & wt & I).
+  pose proof (reach_ghost _ _ _ Hwf Hr) as G.
+  assert (Hcsv : In c sv).
+  { pose proof (i_split _ _ _ _ I) as E. rewrite E in Hc. apply in_app_or in Hc as [H|H]; [exact H|].
+    pose proof (i_wt _ _ _ _ I) as Hwt. unfold none_ws in Hwt. rewrite Forall_forall in Hwt. rewrite (Hwt c H) in Hw. discriminate. }
+  assert (Hok : served_ok (now s) (locc s) c).
+  { pose proof (i_num _ _ _ _ I) as H. rewrite Forall_forall in H. auto. }
+  destruct (Hok Hw) as (_ & _ & H3).
+  pose proof (wl_nonneg (now s) (locc s) c (now s) Hw Hok H3) as Hnn.
+  pose proof (g_served _ _ G c Hc Hw) as Hg. unfold work_left in *.
+  repeat split; auto.
+  - apply (wl_zero_iff (now s)); assumption.
+  - apply (wl_zero_iff (now s)); assumption.
+  - lra.
+Qed.
+
+(* ps_capacity: at most K customers are in service, they are the head of the line (earliest arrivals
+   present), occupancy = min(n, K), and the sequence of service starts so far followed by the customers
+   still waiting and those still to arrive is the arrival order: customers start first come first served *)
+Theorem ps_capacity arrs s g :
+  wf_arrs arrs -> reach arrs s g ->
+  exists sv wt, inds s = sv ++ wt /\ all_ws sv /\ none_ws wt /\
+    occupancy s = length sv /\ length sv = cap_min (length (inds s)) K /\
+    match K with Some k => (occupancy s <= k)%nat | None => wt = [] end /\
+    map fst (rev (starts s)) ++ map cid wt ++ map a_id (pend s) = map a_id arrs.
+Proof.
+  intros Hwf Hr. destruct (reach_inv _ _ _ Hwf Hr) as (sv & wt & I). exists sv, wt.
+  destruct (inv_occ _ _ _ _ I) as (Eo & El). destruct I.
+  split; [exact i_split0|]. split; [exact i_sv0|]. split; [exact i_wt0|]. split; [congruence|].
+  split; [rewrite i_split0; exact i_len0|]. split; [|exact i_order0].
+  rewrite Eo, El. destruct K as [k|]; cbn [cap_min] in i_len0; [lia|].
+  rewrite app_length in i_len0. destruct wt; [reflexivity|cbn in i_len0; lia].
+Qed.
+(* ---------- FIFO equivalence (K = infinity, R = 1) ---------- *)
+(* remaining work at time t of a FIFO job with record d: all of it before its start, exit - t during
+   its service, nothing afterwards *)
+Definition rem (d : dep) (t : Q) : Q := Qmax 0 (Qmin (d_req d) (d_exit d - t)).
+Definition fifo_work (ds : list dep) (t : Q) : Q := fold_right (fun d acc => rem d t + acc) 0 ds.
+Fixpoint fifo_last (d : Q) (l : list arrival) : Q :=
+  match l with [] => d | a :: r => fifo_last (Qmax (a_t a) d + a_w a) r end.
+
+Ltac qmm :=
+  repeat match goal with
+  | |- context [Qmax ?a ?b] =>
+    let H := fresh in let E := fresh in let m := fresh "m" in
+    destruct (Q.max_spec a b) as [[H E]|[H E]]; set (m := Qmax a b) in *; clearbody m
+  | |- context [Qmin ?a ?b] =>
+    let H := fresh in let E := fresh in let m := fresh "m" in
+    destruct (Q.min_spec a b) as [[H E]|[H E]]; set (m := Qmin a b) in *; clearbody m
+  | H0 : context [Qmax ?a ?b] |- _ =>
+    let H := fresh in let E := fresh in let m := fresh "m" in
+    destruct (Q.max_spec a b) as [[H E]|[H E]]; set (m := Qmax a b) in *; clearbody m
+  | H0 : context [Qmin ?a ?b] |- _ =>
+    let H := fresh in let E := fresh in let m := fresh "m" in
+    destruct (Q.min_spec a b) as [[H E]|[H E]]; set (m := Qmin a b) in *; clearbody m
+  end.
+
+Lemma rem_step ta w d t : ta <= t -> 0 <= w ->
+  Qmax 0 (Qmin w (Qmax ta d + w - t)) + Qmax 0 (d - t) == Qmax 0 (Qmax ta d + w - t).
+Proof. intros H1 H2. qmm; lra. Qed.
+
+Lemma fifo_last_compat d d' l : d == d' -> fifo_last d l == fifo_last d' l.
+Proof.
+  revert d d'. induction l as [|a r IH]; cbn; intros d d' H; [exact H|].
+  apply IH. rewrite H. reflexivity.
+Qed.
+Lemma fifo_last_app d l1 l2 : fifo_last d (l1 ++ l2) = fifo_last (fifo_last d l1) l2.
+Proof. revert d. induction l1 as [|a r IH]; cbn; intros d; [reflexivity|]. apply IH. Qed.
+
+Lemma fifo_closed l : forall d t, (forall a, In a l -> a_t a <= t /\ 0 <= a_w a) ->
+  fifo_work (fifo_from d l) t + Qmax 0 (d - t) == Qmax 0 (fifo_last d l - t).
+Proof.
+  induction l as [|a r IH]; intros d t H.
+  - cbn. ring.
+  - cbn [fifo_from fifo_work fold_right fifo_last].
+    set (e := Qred (Qred (Qmax (a_t a) d) + a_w a)).
+    fold (fifo_work (fifo_from e r) t).
+    destruct (H a (or_introl eq_refl)) as [H1 H2].
+    assert (E : e == Qmax (a_t a) d + a_w a) by (unfold e; rewrite !Qred_eq; reflexivity).
+    assert (IH' := IH e t (fun x Hx => H x (or_intror Hx))).
+    rewrite (fifo_last_compat _ _ r E) in IH'.
+    set (F := fifo_work (fifo_from e r) t) in *. clearbody F.
+    rewrite E in IH'. unfold rem. cbn [d_req d_exit]. rewrite E.
+    pose proof (rem_step (a_t a) (a_w a) d t H1 H2) as Hs. lra.
+Qed.
+
+Fixpoint sum_wl (t : Q) (lo : nat) (l : list cust) : Q :=
+  match l with [] => 0 | c :: r => wl_at t lo c + sum_wl t lo r end.
+(* total remaining work of the customers in service *)
+Definition total_work (s : st) : Q := sum_wl (now s) (locc s) (filter c_ws (inds s)).
+
+Lemma sum_wl_app t lo a b : sum_wl t lo (a ++ b) == sum_wl t lo a + sum_wl t lo b.
+Proof. induction a as [|x r IH]; cbn [app sum_wl]; [ring|]. rewrite IH. ring. Qed.
+Lemma sum_wl_shift t t0 lo l : sum_wl t lo l == sum_wl t0 lo l - qocc (length l) * rate lo * (t - t0).
+Proof.
+  induction l as [|x r IH]; cbn [sum_wl length]; [unfold qocc; cbn [Z.of_nat]; ring|].
+  rewrite IH, qocc_S. unfold wl_at. ring.
+Qed.
+Lemma sum_wl_nonneg t lo l : (forall c, In c l -> 0 <= wl_at t lo c) -> 0 <= sum_wl t lo l.
+Proof.
+  induction l as [|x r IH]; intros H; cbn [sum_wl]; [lra|].
+  pose proof (H x (or_introl eq_refl)). pose proof (IH (fun c Hc => H c (or_intror Hc))). lra.
+Qed.
+Lemma sum_upd t lo no l : all_ws l -> (0 < lo)%nat ->
+  sum_wl t no (map (upd_cust R t lo no) l) == sum_wl t lo l.
+Proof.
+  intros Ha Hlo. induction Ha as [|x r Hx _ IH]; [reflexivity|].
+  cbn [map sum_wl]. rewrite IH.
+  destruct (upd_ws t lo no x Hx) as (_ & _ & _ & _ & _ & E6 & E7 & _).
+  unfold wl_at at 1. rewrite E6, E7, share_rate by exact Hlo. ring.
+Qed.
+Lemma filter_all_ws l : all_ws l -> filter c_ws l = l.
+Proof. induction 1 as [|x r Hx _ IH]; cbn; [reflexivity|]. rewrite Hx, IH. reflexivity. Qed.
+
+Lemma rate_total n : R == 1 -> (0 < n)%nat -> qocc n * rate n == 1.
+Proof.
+  intros HR Hn. pose proof (qocc_pos n Hn). unfold rate, M. rewrite (Q.max_l (qocc n) R) by lra.
+  rewrite HR. field. lra.
+Qed.
+
+Lemma max_shift X Y D t0 t : X == Qmax 0 (D - t0) -> 0 <= Y -> t0 <= t ->
+  (Y == X - (t - t0) \/ (Y == 0 /\ X == 0)) -> Y == Qmax 0 (D - t).
+Proof. intros HX HY Ht H. revert HX. qmm; intros; destruct H as [H|[H H']]; lra. Qed.
+
+Record Fifo (arrs : list arrival) (s : st) (done : list arrival) : Prop := mkFifo {
+  f_split : arrs = done ++ pend s;
+  f_past : forall a, In a done -> a_t a <= now s /\ 0 <= a_w a;
+  f_work : total_work s == Qmax 0 (fifo_last 0 done - now s)
+}.
+
+Lemma step_fifo arrs s sv wt s' done :
+  K = None -> R == 1 -> Inv arrs s sv wt -> Fifo arrs s done -> step R K s = Some s' ->
+  exists done', Fifo arrs s' done'.
+Proof.
+  intros HK HR I F Hs. destruct F as [Fs Fp Fw].
+  destruct (inv_occ _ _ _ _ I) as (_ & El).
+  assert (Hwt : wt = []).
+  { pose proof (i_len _ _ _ _ I) as H. rewrite HK in H. cbn in H. rewrite app_length in H. destruct wt; [reflexivity|cbn in H; lia]. }
+  subst wt. pose proof (i_split _ _ _ _ I) as Ei. rewrite app_nil_r in Ei.
+  pose proof (i_sv _ _ _ _ I) as Hall.
+  assert (HX : total_work s = sum_wl (now s) (locc s) sv) by (unfold total_work; rewrite Ei, filter_all_ws by exact Hall; reflexivity).
+  rewrite HX in Fw.
+  assert (Hnn : forall t, (forall x, In x sv -> t <= c_end x) -> forall x, In x sv -> 0 <= wl_at t (locc s) x).
+  { intros t Ht x Hx. pose proof (i_num _ _ _ _ I) as Hn. unfold all_ws in Hall. rewrite Forall_forall in Hn, Hall.
+    apply (wl_nonneg (now s)); auto. }
+  assert (Hshift : forall t, sum_wl t (locc s) sv == sum_wl (now s) (locc s) sv - (t - now s) \/
+                             (sum_wl t (locc s) sv == 0 /\ sum_wl (now s) (locc s) sv == 0)).
+  { intros t. destruct sv as [|x0 r0] eqn:Esv; [right; cbn; split; reflexivity|left].
+    rewrite (sum_wl_shift t (now s)). rewrite <- Esv in *. rewrite <- El.
+    assert (0 < locc s)%nat by (rewrite El, Esv; cbn; lia).
+    rewrite (rate_total (locc s) HR) by assumption. ring. }
+  destruct (step_cases _ _ _ _ _ I Hs) as [(a & r & Hp & -> & Hle)|(c & Hc & -> & Hnow & Hmin)].
+  - (* arrival *)
+    destruct (accept_fields s a r) as (E1 & E2 & _).
+    pose proof (i_pend _ _ _ _ I) as Hsrt. rewrite Hp in Hsrt. cbn in Hsrt. destruct Hsrt as (Ht & Hw & _).
+    destruct (accept_char _ _ _ _ a r I) as [(_ & Hi & Hl & _)|(_ & _ & _ & k & EK & _)]; [|congruence].
+    exists (done ++ [a]). constructor.
+    + rewrite E2, <- app_assoc. cbn. rewrite <- Hp. exact Fs.
+    + rewrite E1. intros x Hx. apply in_app_or in Hx as [Hx|[<-|[]]]; [|split; [apply Qle_refl|exact Hw]].
+      destruct (Fp x Hx). split; [lra|assumption].
+    + rewrite fifo_last_app. cbn [fifo_last]. rewrite E1.
+      assert (Hall' : all_ws (map (upd_cust R (a_t a) (locc s) (S (length sv))) (sv ++ [c_new a]))).
+      { unfold all_ws. rewrite Forall_forall. intros x Hx. apply in_map_iff in Hx as (y & <- & Hy). rewrite upd_wsflag.
+        apply in_app_or in Hy as [Hy|[<-|[]]]; [|reflexivity]. unfold all_ws in Hall. rewrite Forall_forall in Hall. auto. }
+      unfold total_work. rewrite Hi, Hl, E1, filter_all_ws by exact Hall'.
+      rewrite map_app, sum_wl_app. cbn [map sum_wl].
+      assert (Enew : wl_at (a_t a) (S (length sv)) (upd_cust R (a_t a) (locc s) (S (length sv)) (c_new a)) == a_w a).
+      { destruct (upd_ws (a_t a) (locc s) (S (length sv)) (c_new a) eq_refl) as (_ & _ & _ & _ & _ & E6 & E7 & _).
+        unfold wl_at. rewrite E6, E7, share_fresh by reflexivity. cbn. ring. }
+      rewrite Enew.
+      assert (Eold : sum_wl (a_t a) (S (length sv)) (map (upd_cust R (a_t a) (locc s) (S (length sv))) sv) == Qmax 0 (fifo_last 0 done - a_t a)).
+      { destruct sv as [|x0 r0] eqn:Esv.
+        - cbn. revert Fw. cbn. qmm; intros; lra.
+        - rewrite <- Esv in *. rewrite sum_upd; [|exact Hall|rewrite El, Esv; cbn; lia].
+          apply (max_shift (sum_wl (now s) (locc s) sv) _ _ (now s)); auto.
+          apply sum_wl_nonneg. apply Hnn. exact Hle. }
+      rewrite Eold. qmm; lra.
+  - (* departure *)
+    destruct (depart_fields s c) as (E1 & E2 & _).
+    destruct (depart_char _ _ _ _ _ I Hc) as (sv1 & sv2 & Hsv & [(w1 & wt' & Hwt & _)|(_ & Hi & Hl & _)]); [discriminate|].
+    exists done. constructor.
+    + rewrite E2. exact Fs.
+    + rewrite E1. intros x Hx. destruct (Fp x Hx). split; [lra|assumption].
+    + rewrite E1.
+      assert (Hall12 : all_ws (sv1 ++ sv2)).
+      { unfold all_ws in *. rewrite Forall_forall in *. intros x Hx. apply Hall. rewrite Hsv.
+        apply in_app_or in Hx as [Hx|Hx]; apply in_or_app; [left|right; right]; exact Hx. }
+      assert (Hall' : all_ws (map (upd_cust R (c_end c) (locc s) (length sv - 1)) (sv1 ++ sv2))).
+      { unfold all_ws. rewrite Forall_forall. intros x Hx. apply in_map_iff in Hx as (y & <- & Hy). rewrite upd_wsflag.
+        unfold all_ws in Hall12. rewrite Forall_forall in Hall12. auto. }
+      unfold total_work. rewrite Hi, Hl, E1, filter_all_ws by exact Hall'.
+      assert (Hlo : (0 < locc s)%nat) by (rewrite El, Hsv, app_length; cbn; lia).
+      rewrite sum_upd by assumption.
+      assert (Hz : wl_at (c_end c) (locc s) c == 0).
+      { pose proof (i_num _ _ _ _ I) as Hn. unfold all_ws in Hall. rewrite Forall_forall in Hn, Hall.
+        apply (wl_zero_iff (now s)); auto. reflexivity. }
+      assert (E12 : sum_wl (c_end c) (locc s) (sv1 ++ sv2) == sum_wl (c_end c) (locc s) sv).
+      { rewrite Hsv, !sum_wl_app. cbn [sum_wl]. rewrite Hz. ring. }
+      rewrite E12.
+      apply (max_shift (sum_wl (now s) (locc s) sv) _ _ (now s)); auto.
+      apply sum_wl_nonneg. apply Hnn. exact Hmin.
+Qed.
+
+Lemma reach_fifo arrs s g : K = None -> R == 1 -> wf_arrs arrs -> reach arrs s g -> exists done, Fifo arrs s done.
+Proof.
+  intros HK HR Hwf. induction 1 as [|s g s' Hr (done & F) Hs].
+  - exists []. constructor; cbn; [reflexivity|contradiction|]. unfold total_work. cbn. qmm; lra.
+  - destruct (reach_inv _ _ _ Hwf Hr) as (sv & wt & I). eapply step_fifo; eauto.
+Qed.
+
+(* ps_fifo_equiv: for an unlimited PS node with threshold 1 the total remaining work at every event
+   instant equals the remaining work of the single-server FIFO queue (Lindley model) fed with the
+   arrivals processed so far; in particular both are empty of work at the same instants *)
+Theorem ps_fifo_equiv arrs s g done :
+  K = None -> R == 1 -> wf_arrs arrs -> reach arrs s g -> arrs = done ++ pend s ->
+  total_work s == fifo_work (fifo_run done) (now s) /\
+  (total_work s == 0 <-> fifo_work (fifo_run done) (now s) == 0).
+Proof.
+  intros HK HR Hwf Hr Hd. destruct (reach_fifo _ _ _ HK HR Hwf Hr) as (done' & [Fs Fp Fw]).
+  assert (done' = done) as -> by (rewrite Hd in Fs; apply app_inv_tail in Fs; congruence).
+  destruct (reach_inv _ _ _ Hwf Hr) as (sv & wt & I). pose proof (i_now _ _ _ _ I) as Hn0.
+  assert (E : total_work s == fifo_work (fifo_run done) (now s)).
+  { rewrite Fw. unfold fifo_run. rewrite <- (fifo_closed done 0 (now s) Fp). revert Hn0. qmm; intros; lra. }
+  split; [exact E|]. rewrite E. tauto.
+Qed.
+
+(* ---------- the run with fuel 2*|arrivals| is complete ---------- *)
+Definition mu (s : st) : nat := (2 * length (pend s) + length (inds s))%nat.
+Definition total (s : st) : nat := (length (deps s) + length (inds s) + length (pend s))%nat.
+
+Lemma step_measure arrs s sv wt s' :
+  Inv arrs s sv wt -> step R K s = Some s' -> mu s = S (mu s') /\ total s' = total s.
+Proof.
+  intros I Hs. pose proof (i_split _ _ _ _ I) as Ei. unfold mu, total.
+  destruct (step_cases _ _ _ _ _ I Hs) as [(a & r & Hp & -> & _)|(c & Hc & -> & _)].
+  - destruct (accept_fields s a r) as (_ & E2 & E3). rewrite E2, E3, Hp, Ei.
+    destruct (accept_char _ _ _ _ a r I) as [(Hwt & Hi & _)|(Hi & _)]; rewrite Hi.
+    + subst wt. rewrite map_length, !app_length. cbn [length]. lia.
+    + rewrite !app_length. cbn [length]. lia.
+  - destruct (depart_fields s c) as (_ & E2 & E3). rewrite E2, E3, Ei.
+    destruct (depart_char _ _ _ _ _ I Hc) as (sv1 & sv2 & Hsv & [(w1 & wt' & Hwt & Hi & _)|(Hwt & Hi & _)]); rewrite Hi, Hsv, Hwt.
+    + rewrite ?app_length, ?map_length, ?app_length. cbn [length]. rewrite ?app_length. cbn [length]. lia.
+    + rewrite ?map_length, ?app_length. cbn [length]. lia.
+Qed.
+
+Lemma step_none arrs s sv wt : Inv arrs s sv wt -> step R K s = None -> inds s = [] /\ pend s = [].
+Proof.
+  intros I H. unfold step in H.
+  destruct (next_end (now s) (inds s)) as [c|] eqn:En; destruct (pend s) as [|a r] eqn:Ep; try discriminate.
+  - destruct (Qle_bool (c_end c) (a_t a)); discriminate.
+  - split; [|reflexivity]. destruct I.
+    assert (sv = []) as ->.
+    { destruct sv as [|x r]; [reflexivity|]. exfalso.
+      unfold all_ws in i_sv0. rewrite Forall_forall in i_sv0, i_num0.
+      destruct (i_num0 x (or_introl eq_refl) (i_sv0 x (or_introl eq_refl))) as (_ & _ & H3).
+      apply (next_end_none _ _ En x); [rewrite i_split0; left; reflexivity|apply i_sv0; left; reflexivity|exact H3]. }
+    cbn [app length] in *. rewrite i_split0. destruct wt as [|w r]; [reflexivity|exfalso].
+    cbn [length] in i_len0. unfold cap_min in i_len0. destruct K as [k|]; lia.
+Qed.
+
+Lemma run_reach arrs fuel : forall s g, reach arrs s g -> exists g', reach arrs (run R K fuel s) g'.
+Proof.
+  induction fuel as [|f IH]; intros s g Hr; cbn [run]; [eauto|].
+  destruct (step R K s) as [s'|] eqn:E; [|eauto]. eapply IH. eapply reach_step; eauto.
+Qed.
+
+Lemma run_complete arrs fuel : forall s sv wt, Inv arrs s sv wt -> (mu s <= fuel)%nat ->
+  inds (run R K fuel s) = [] /\ pend (run R K fuel s) = [] /\ total (run R K fuel s) = total s.
+Proof.
+  induction fuel as [|f IH]; intros s sv wt I Hm; cbn [run].
+  - unfold mu in Hm. destruct (inds s), (pend s); cbn in Hm; try lia. auto.
+  - destruct (step R K s) as [s'|] eqn:E.
+    + destruct (step_measure _ _ _ _ _ I E) as (Hmu & Ht). destruct (step_inv _ _ _ _ _ I E) as (sv' & wt' & I').
+      destruct (IH s' sv' wt' I') as (H1 & H2 & H3); [lia|]. repeat split; auto. congruence.
+    + destruct (step_none _ _ _ _ I E). auto.
+Qed.
+
+(* ps_complete: the executable run ends with everybody departed, it is a reachable state (so all the
+   theorems above apply to it and to each of its steps) and customers started in arrival order *)
+Theorem ps_complete arrs : wf_arrs arrs ->
+  let s := ps_run R K arrs in
+  (exists g, reach arrs s g) /\ inds s = [] /\ pend s = [] /\ length (deps s) = length arrs /\
+  map fst (rev (starts s)) = map a_id arrs.
+Proof.
+  intros Hwf s. pose proof Hwf as [H1 H2].
+  destruct (run_reach arrs (2 * length arrs) (init arrs) _ (reach_init arrs)) as (g & Hr). fold (ps_run R K arrs) in Hr. fold s in Hr.
+  assert (Hmu : (mu (init arrs) <= 2 * length arrs)%nat) by (unfold mu; cbn [init pend inds length]; lia).
+  destruct (run_complete arrs (2 * length arrs) (init arrs) [] [] (init_inv arrs H1 H2) Hmu) as (E1 & E2 & E3).
+  fold (ps_run R K arrs) in E1, E2, E3. fold s in E1, E2, E3.
+  split; [eauto|]. split; [exact E1|]. split; [exact E2|]. split.
+  - unfold total in E3. rewrite E1, E2 in E3. cbn [init deps inds pend length] in E3. lia.
+  - destruct (ps_capacity arrs s g Hwf Hr) as (sv & wt & Ei & _ & _ & _ & _ & _ & Ho).
+    rewrite E1 in Ei. destruct sv; [|discriminate]. destruct wt; [|discriminate]. rewrite E2 in Ho. cbn in Ho.
+    rewrite app_nil_r in Ho. exact Ho.
+Qed.
+
 End Proofs.
